@@ -242,6 +242,12 @@ def gen_plan(rng, profile: dict, seed: int) -> dict:
         reprs = [rng.choice(REPRS) if rep_style == "mixed" else rep_style for _ in range(n)]
         etimes = [rng.choice([0.0, 12.5, -3.0, 1e7]) for _ in range(n + 1)]
         return {"mode": mode, "cond": cond, "train": train, "val": val, "reprs": reprs, "etimes": etimes}
+    if mode == "loop" and rng.random() < 0.04:
+        # the same patience condition object handed to two consecutive train() calls (a benchmark loop sharing one object)
+        ndev = rng.choice([1, 1, 2])
+        B = ndev * rng.choice([1, 2])
+        return {"mode": "reuse", "cond": {"kind": rng.choice(["TrainLoss", "ValLoss"]), "patience": rng.randint(0, 2), "min_delta": 0, "verbose": 0},
+                "ndev": ndev, "B": B, "L": B * rng.choice([1, 2]), "Lval": B, "key": rng.getrandbits(31), "first_low": rng.random() < 0.8}
     if mode == "loop":
         nb = rng.choice([1, 1, 2, 4])  # batches per epoch (power of two keeps epoch means dyadic)
         ndev = rng.choice([1, 1, 2, 4])
@@ -364,6 +370,8 @@ def execute(plan: dict, ctx: dict) -> dict:
             evals = _exec_direct(plan, world, viol, bump, states_seen)
         elif mode == "loop":
             evals = _exec_loop(plan, ctx, world, viol, bump, states_seen)
+        elif mode == "reuse":
+            evals = _exec_reuse(plan, ctx, world, viol, bump)
         else:
             evals = _exec_real(plan, ctx, world, viol, bump, states_seen)
     finally:
@@ -492,6 +500,52 @@ def _epoch_means(ts: list[float], nb: int, n_epochs: int) -> list[float]:
             s = np.float32(s + np.float32(ts[min(e * nb + j, S_MAX - 1)]))
         out.append(float(np.float32(s / np.float32(nb))))
     return out
+
+
+def _exec_reuse(plan, ctx, world, viol, bump) -> int:
+    """Two consecutive train() calls sharing one patience condition object. Whatever the carried-over counters do to the
+    *moment* the second call stops (the statement speaks about one history), two things are decidable and sound: the
+    second call terminates on a non-improving history, and the model it returns descends from the model it was given -
+    never from the model of the earlier call."""
+    c = plan["cond"]
+    ndev, B, L = plan["ndev"], plan["B"], plan["L"]
+    site = f"{c['kind']}/reuse"
+    cond = make_cond(c)
+    calls = {"n": 0}
+    cap = c["patience"] + 8
+
+    def hook(self, model, current_epoch, train_loss, val_loss, epoch_time, r):
+        calls["n"] += 1
+        if calls["n"] > cap and not r:
+            raise StepBudgetExceeded(f"{calls['n']} stop calls")
+
+    cond = instrument(cond, hook)
+    X, Y = _dataset(ctx, L, 0.0)
+    VX, VY = _dataset(ctx, plan["Lval"], 1.0)
+    lo, hi = (0.125, 1.0) if plan["first_low"] else (1.0, 0.125)
+    total = 0
+    with world, capture_stdout() as out:
+        for which, level in (("first", lo), ("second", hi)):
+            calls["n"] = 0
+            model = ScriptModel([level] * S_MAX, [level] * S_MAX)
+            try:
+                res = training.train(X, Y, script_map_and_loss, model, jax.random.PRNGKey(plan["key"]), cond, B, counting_optimizer(world),
+                                     validation_X=VX, validation_Y=VY, devices=devices(ndev))
+            except StepBudgetExceeded:
+                viol("no_termination", {"call": which, "stop_calls": calls["n"], "constant_loss": level}, f"{site}/{which}")
+                break
+            except Exception as e:
+                viol("raises", f"{which}: {type(e).__name__}: {e}", site)
+                break
+            total += calls["n"]
+            got = res[0]
+            tag = None if got is None or not hasattr(got, "train_script") else float(np.asarray(got.train_script)[0])
+            bump("reuse_calls")
+            if tag != level:
+                viol("returned_model_not_from_this_call", {"call": which, "returned_model_loss_level": tag, "this_call_loss_level": level}, f"{site}/{which}")
+                break
+    world.log.add("stdout", out.getvalue())
+    return total
 
 
 def _exec_loop(plan, ctx, world, viol, bump, states_seen) -> int:
